@@ -984,3 +984,11 @@ package twig
 //@   atcall[C12] (*ZeroAllocTokenizer).AddToken#19 a1 == TOKEN_NAME && a2 == fn_TrimSpace_0(substr(fromItem(), 0, nth(asPos, 1)))
 //@   atcall[C12] (*ZeroAllocTokenizer).AddToken#21 a1 == TOKEN_NAME && a2 == fn_TrimSpace_0(substr(fromItem(), nth(asPos, 1) + 4, len(fromItem())))
 //@   atcall[C12] (*ZeroAllocTokenizer).AddToken#22 a1 == TOKEN_NAME && a2 == fromItem()
+
+// x['name'] on a map[string]interface{}: the value of that key, and nothing when neither the key nor
+// its string form is there (C20)
+//@ define itemMap() unboxAs(container, "map[string]interface{}")
+//@ func (*RenderContext).getItem props: C20
+//@   ensures[C20] typeIs(container, "map[string]interface{}") && typeIs(index, "string") && has(itemMap(), unboxAs(index, "string")) ==> err == nil && ret0 == itemMap()[unboxAs(index, "string")]
+//@   ensures[C20] typeIs(container, "map[string]interface{}") && !(typeIs(index, "string") && has(itemMap(), unboxAs(index, "string"))) && has(itemMap(), fn_ToString_0(ctx, index)) ==> err == nil && ret0 == itemMap()[fn_ToString_0(ctx, index)]
+//@   ensures[C20] typeIs(container, "map[string]interface{}") && !(typeIs(index, "string") && has(itemMap(), unboxAs(index, "string"))) && !has(itemMap(), fn_ToString_0(ctx, index)) ==> err == nil && ret0 == nil
